@@ -18,7 +18,11 @@ def run(ctx):
         run_kani(ctx, 'slice', harness=['c10_q_'], flags=FLAGS, harness_timeout='8m', search=SEARCH)
     else:
         ctx.extra['exhaustive_in_N'] = True
-        run_kani(ctx, 'slice', harness=['c10_q_', 'c10_t_'], flags=FLAGS, harness_timeout='20m', wall_timeout=4 * 3600, search=SEARCH)
+        run_kani(ctx, 'slice', harness=['c10_q_'], flags=FLAGS, harness_timeout='20m', search=SEARCH)
+        # deep tier: a shape that does not finish within the harness timeout is reported NOT COVERED (measured: boxed N = 32
+        # with the leak check did not finish in 20 min), never as a verdict
+        run_kani(ctx, 'slice', harness=['c10_t_'], flags=FLAGS, harness_timeout='20m', wall_timeout=4 * 3600, search=SEARCH,
+                 soft_timeout=True)
 
 
 def prepare_replay(rec):
